@@ -246,13 +246,21 @@ pub fn print_real(x: f32, out: &mut Vec<u8>) {
 }
 
 pub fn print_string(bs: &[u8], literal: bool, out: &mut Vec<u8>) {
-    if literal && bs.iter().all(|b| (0x20..0x7f).contains(b)) {
+    if literal {
+        // literal string: the three special characters escaped, CR / LF by name, other control and high bytes
+        // as three-digit octal codes
         out.push(b'(');
         for &b in bs {
-            if b == b'(' || b == b')' || b == b'\\' {
-                out.push(b'\\');
+            match b {
+                b'(' | b')' | b'\\' => {
+                    out.push(b'\\');
+                    out.push(b);
+                }
+                b'\r' => out.extend_from_slice(b"\\r"),
+                b'\n' => out.extend_from_slice(b"\\n"),
+                0x20..=0x7e => out.push(b),
+                _ => out.extend_from_slice(format!("\\{:03o}", b).as_bytes()),
             }
-            out.push(b);
         }
         out.push(b')');
     } else {
@@ -264,6 +272,19 @@ pub fn print_string(bs: &[u8], literal: bool, out: &mut Vec<u8>) {
     }
 }
 
+/// a name as the harness spells it: regular characters other than `#` as they are, everything else `#XX`
+/// (upper-case digits; the library's writer uses lower-case ones)
+pub fn print_name(bs: &[u8], out: &mut Vec<u8>) {
+    out.push(b'/');
+    for &b in bs {
+        if (b'!'..=b'~').contains(&b) && !b"()<>[]{}/%#".contains(&b) {
+            out.push(b);
+        } else {
+            out.extend_from_slice(format!("#{:02X}", b).as_bytes());
+        }
+    }
+}
+
 pub fn print_prim(p: &Primitive, out: &mut Vec<u8>) {
     match p {
         Primitive::Null => out.extend_from_slice(b"null"),
@@ -271,10 +292,7 @@ pub fn print_prim(p: &Primitive, out: &mut Vec<u8>) {
         Primitive::Integer(i) => out.extend_from_slice(format!("{}", i).as_bytes()),
         Primitive::Number(x) => print_real(*x, out),
         Primitive::String(s) => print_string(s.as_bytes(), s.as_bytes().len() % 2 == 0, out),
-        Primitive::Name(n) => {
-            out.push(b'/');
-            out.extend_from_slice(n.as_bytes());
-        }
+        Primitive::Name(n) => print_name(n.as_bytes(), out),
         Primitive::Reference(r) => out.extend_from_slice(format!("{} {} R", r.id, r.gen).as_bytes()),
         Primitive::Array(xs) => {
             out.push(b'[');
@@ -289,8 +307,7 @@ pub fn print_prim(p: &Primitive, out: &mut Vec<u8>) {
         Primitive::Dictionary(d) => {
             out.extend_from_slice(b"<<");
             for (k, v) in d.iter() {
-                out.push(b'/');
-                out.extend_from_slice(k.as_bytes());
+                print_name(k.as_bytes(), out);
                 out.push(b' ');
                 print_prim(v, out);
                 out.push(b' ');
@@ -315,7 +332,9 @@ pub fn print_image(img: &Option<(u8, u8, u8)>, out: &mut Vec<u8>) {
             for _ in 0..(*w as usize * *h as usize) {
                 out.push(*b);
             }
-            out.extend_from_slice(b"\nEI");
+            // any white-space character may precede EI
+            out.push(b"\n \r\t"[(*w as usize + *h as usize + *b as usize) % 4]);
+            out.extend_from_slice(b"EI");
         }
         // no /H: `inline_image` fails after it has found the end of the data
         None => out.extend_from_slice(b"BI /W 1 /BPC 8 /CS /G ID A\nEI"),
